@@ -30,6 +30,11 @@ def gen_grid_spec(rng, ctor, dim=1):
         g.update({"h": W.r6(W._logu(rng, 0.005, 0.1)), "pstep": W.r6(W._logu(rng, 0.01, 0.2))})
     elif ctor in ("credit", "credit_asym"):
         g.update({"h_div": W.r6(W._logu(rng, 4.0, 60.0)), "a_frac": [W.r6(rng.uniform(0.05, 0.95)) for _ in range(max(dim, 1))]})
+    elif ctor == "per_axis":
+        h = W.r6(W._logu(rng, 0.005, 0.2))
+        g.update({"h": h, "n_left": int(rng.integers(2, 9)), "n_right": [int(rng.integers(2, 9)) for _ in range(dim)],
+                  "l": [-W.r6(h * W._logu(rng, 3.0, 40.0)) for _ in range(dim)], "r": [W.r6(h * W._logu(rng, 3.0, 40.0)) for _ in range(dim)],
+                  "spacing": [str(rng.choice(["linear", "geometric"])) for _ in range(dim)]})
     else:
         raise ValueError(ctor)
     return g
@@ -82,6 +87,16 @@ def build_grid(g, model):
         g["_h"] = g["h"]
         return S.CTMCGridGeometric.create_with_bounds(h=g["h"], truncations=(g["l"], g["r"]), dimension=dim,
                                                       nb_of_points_on_each_side=g["n_side"])
+    if ctor == "per_axis":
+        # the base constructor given one array per axis, each with its own bounds (same number of states left of 0: one origin index)
+        g["_h"] = h = g["h"]
+        axes = []
+        for k in range(dim):
+            sp = np.geomspace if g["spacing"][k] == "geometric" else np.linspace
+            left = -sp(-g["l"][k], h, g["n_left"])
+            right = sp(h, g["r"][k], g["n_right"][k])
+            axes.append(np.concatenate([left, [0.0], right]))
+        return S.CTMCGrid(h=h, origin_coordinate=g["n_left"], axes=axes)
     if ctor == "probstep":
         g["_h"] = g["h"]
         return S.CTMCGridProbabilityStep(h=g["h"], model=model, minimum_probability_step=g["pstep"], dimension=dim)
